@@ -139,6 +139,7 @@ Record thread := {
   t_holds : bool;               (* it has locked s.mutex and not unlocked it *)
   t_fed : bool;                 (* the client's bytes are there *)
   t_eof : bool;                 (* the client has closed its side of the stream *)
+  t_pmgo : bool;                (* the path manager answers this goroutine's request (false: it lets it wait) *)
   t_name : list Z;              (* locals of getPathNameAndQuery *)
   t_query : list Z;
   t_cat : option catinfo;       (* local `cat` *)
@@ -186,39 +187,39 @@ Definition set_pathset (g : sess) : sess :=
 
 (* the runtime part of a thread after one statement: the rest of the program, and the fields a statement may set *)
 Definition t_with (t : thread) (ops : list op) (holds : bool) : thread :=
-  {| t_ops := ops; t_alt := None; t_on := t_on t; t_holds := holds; t_fed := t_fed t; t_eof := t_eof t;
+  {| t_ops := ops; t_alt := None; t_on := t_on t; t_holds := holds; t_fed := t_fed t; t_eof := t_eof t; t_pmgo := t_pmgo t;
      t_name := t_name t; t_query := t_query t; t_cat := t_cat t; t_pm := t_pm t; t_wrote := t_wrote t;
      t_snap := t_snap t; t_res := t_res t; t_abs := t_abs t |}.
 Definition t_set_name (t : thread) (n q : list Z) : thread :=
-  {| t_ops := t_ops t; t_alt := t_alt t; t_on := t_on t; t_holds := t_holds t; t_fed := t_fed t; t_eof := t_eof t;
+  {| t_ops := t_ops t; t_alt := t_alt t; t_on := t_on t; t_holds := t_holds t; t_fed := t_fed t; t_eof := t_eof t; t_pmgo := t_pmgo t;
      t_name := n; t_query := q; t_cat := t_cat t; t_pm := t_pm t; t_wrote := t_wrote t;
      t_snap := t_snap t; t_res := t_res t; t_abs := t_abs t |}.
 Definition t_set_cat (t : thread) (c : option catinfo) : thread :=
-  {| t_ops := t_ops t; t_alt := t_alt t; t_on := t_on t; t_holds := t_holds t; t_fed := t_fed t; t_eof := t_eof t;
+  {| t_ops := t_ops t; t_alt := t_alt t; t_on := t_on t; t_holds := t_holds t; t_fed := t_fed t; t_eof := t_eof t; t_pmgo := t_pmgo t;
      t_name := t_name t; t_query := t_query t; t_cat := c; t_pm := t_pm t; t_wrote := t_wrote t;
      t_snap := t_snap t; t_res := t_res t; t_abs := t_abs t |}.
 Definition t_set_pm (t : thread) (p : bool) : thread :=
-  {| t_ops := t_ops t; t_alt := t_alt t; t_on := t_on t; t_holds := t_holds t; t_fed := t_fed t; t_eof := t_eof t;
+  {| t_ops := t_ops t; t_alt := t_alt t; t_on := t_on t; t_holds := t_holds t; t_fed := t_fed t; t_eof := t_eof t; t_pmgo := t_pmgo t;
      t_name := t_name t; t_query := t_query t; t_cat := t_cat t; t_pm := Some (t_name t, t_query t, p);
      t_wrote := t_wrote t; t_snap := t_snap t; t_res := t_res t; t_abs := t_abs t |}.
 Definition t_add_wrote (t : thread) (w : Z) : thread :=
-  {| t_ops := t_ops t; t_alt := t_alt t; t_on := t_on t; t_holds := t_holds t; t_fed := t_fed t; t_eof := t_eof t;
+  {| t_ops := t_ops t; t_alt := t_alt t; t_on := t_on t; t_holds := t_holds t; t_fed := t_fed t; t_eof := t_eof t; t_pmgo := t_pmgo t;
      t_name := t_name t; t_query := t_query t; t_cat := t_cat t; t_pm := t_pm t; t_wrote := w :: t_wrote t;
      t_snap := t_snap t; t_res := t_res t; t_abs := t_abs t |}.
 Definition t_set_snap (t : thread) (s : sstate * list Z * list Z) : thread :=
-  {| t_ops := t_ops t; t_alt := t_alt t; t_on := t_on t; t_holds := t_holds t; t_fed := t_fed t; t_eof := t_eof t;
+  {| t_ops := t_ops t; t_alt := t_alt t; t_on := t_on t; t_holds := t_holds t; t_fed := t_fed t; t_eof := t_eof t; t_pmgo := t_pmgo t;
      t_name := t_name t; t_query := t_query t; t_cat := t_cat t; t_pm := t_pm t; t_wrote := t_wrote t;
      t_snap := Some s; t_res := t_res t; t_abs := t_abs t |}.
 Definition t_set_res (t : thread) (e : err) : thread :=
-  {| t_ops := []; t_alt := None; t_on := t_on t; t_holds := false; t_fed := t_fed t; t_eof := t_eof t;
+  {| t_ops := []; t_alt := None; t_on := t_on t; t_holds := false; t_fed := t_fed t; t_eof := t_eof t; t_pmgo := t_pmgo t;
      t_name := t_name t; t_query := t_query t; t_cat := t_cat t; t_pm := t_pm t; t_wrote := t_wrote t;
      t_snap := t_snap t; t_res := Some e; t_abs := t_abs t |}.
 Definition t_set_abs (t : thread) (a : ghost) : thread :=
-  {| t_ops := t_ops t; t_alt := t_alt t; t_on := t_on t; t_holds := t_holds t; t_fed := t_fed t; t_eof := t_eof t;
+  {| t_ops := t_ops t; t_alt := t_alt t; t_on := t_on t; t_holds := t_holds t; t_fed := t_fed t; t_eof := t_eof t; t_pmgo := t_pmgo t;
      t_name := t_name t; t_query := t_query t; t_cat := t_cat t; t_pm := t_pm t; t_wrote := t_wrote t;
      t_snap := t_snap t; t_res := t_res t; t_abs := a |}.
-Definition t_env (t : thread) (on fed eof : bool) : thread :=
-  {| t_ops := t_ops t; t_alt := t_alt t; t_on := on; t_holds := t_holds t; t_fed := fed; t_eof := eof;
+Definition t_env (t : thread) (on fed eof pmgo : bool) : thread :=
+  {| t_ops := t_ops t; t_alt := t_alt t; t_on := on; t_holds := t_holds t; t_fed := fed; t_eof := eof; t_pmgo := pmgo;
      t_name := t_name t; t_query := t_query t; t_cat := t_cat t; t_pm := t_pm t; t_wrote := t_wrote t;
      t_snap := t_snap t; t_res := t_res t; t_abs := t_abs t |}.
 
@@ -293,7 +294,7 @@ Definition exec (c : cfg) (g : sess) (i : nat) (t : thread) (ch : nat) : outcome
          only while it is idle *)
     | OReadState => if t_holds t || negb (st_eqb (g_st g) SIdle) then go g t1 else XUnprotected
     | OReadName => guarded (go g (t_set_name t1 (g_name g) (g_query g)))
-    | OCallPM p => go g (t_set_pm t1 p)
+    | OCallPM p => if t_pmgo t then go g (t_set_pm t1 p) else XBlocked
     | OStreamReady => guarded (match g_tracks g with None => ret g t EStreamNotReady | Some _ => go g t1 end)
     | OTrackIndex off n =>
         guarded (if (if off then ntracks g <? n else ntracks g <=? n) then ret g t ETrackRange else go g t1)
@@ -432,7 +433,8 @@ Inductive label :=
 | LFeed (i : nat)               (* the client's bytes arrive *)
 | LEof (i : nat)                (* the client closes its side of stream i *)
 | LCancel                       (* the context is cancelled from elsewhere *)
-| LEnvLock | LEnvUnlock.        (* some other goroutine takes / releases s.mutex *)
+| LEnvLock | LEnvUnlock         (* some other goroutine takes / releases s.mutex *)
+| LPm (i : nat) (answer : bool). (* the path manager holds back / answers goroutine i's request *)
 
 Inductive rstate := RRun (g : sess) (ts : list thread) | RPanic (i : nat) | RUnprotected (i : nat).
 
@@ -450,9 +452,14 @@ Definition apply (c : cfg) (r : rstate) (l : label) : rstate :=
                       end
           | None => r
           end
-      | LStart i => match nth_error ts i with Some t => RRun g (upd i (t_env t true (t_fed t) (t_eof t)) ts) | None => r end
-      | LFeed i => match nth_error ts i with Some t => RRun g (upd i (t_env t (t_on t) true (t_eof t)) ts) | None => r end
-      | LEof i => match nth_error ts i with Some t => RRun g (upd i (t_env t (t_on t) (t_fed t) true) ts) | None => r end
+      | LStart i => match nth_error ts i with
+                    | Some t => RRun g (upd i (t_env t true (t_fed t) (t_eof t) (t_pmgo t)) ts) | None => r end
+      | LFeed i => match nth_error ts i with
+                   | Some t => RRun g (upd i (t_env t (t_on t) true (t_eof t) (t_pmgo t)) ts) | None => r end
+      | LEof i => match nth_error ts i with
+                  | Some t => RRun g (upd i (t_env t (t_on t) (t_fed t) true (t_pmgo t)) ts) | None => r end
+      | LPm i b => match nth_error ts i with
+                   | Some t => RRun g (upd i (t_env t (t_on t) (t_fed t) (t_eof t) b) ts) | None => r end
       | LCancel => RRun (set_ctx g) ts
       | LEnvLock => match g_lock g with LFree => RRun (set_lock g LEnv) ts | _ => r end
       | LEnvUnlock => match g_lock g with LEnv => RRun (set_lock g LFree) ts | _ => r end
@@ -574,8 +581,8 @@ Definition alt_of (c : cfg) (v : variant) (s : stream) : option (list op) :=
 
 Definition thread0 (c : cfg) (v : variant) (s : stream) : thread :=
   {| t_ops := prog c v s; t_alt := alt_of c v s; t_on := false; t_holds := false; t_fed := false; t_eof := false;
-     t_name := []; t_query := []; t_cat := None; t_pm := None; t_wrote := []; t_snap := None; t_res := None;
-     t_abs := abs0 |}.
+     t_pmgo := true; t_name := []; t_query := []; t_cat := None; t_pm := None; t_wrote := []; t_snap := None;
+     t_res := None; t_abs := abs0 |}.
 
 (* a session as server.go creates it: WebTransport sessions carry the name of the HTTP/3 request path, native QUIC
    sessions start without a name *)
